@@ -470,7 +470,8 @@ def _read_receives_section(
         text = dedent("\n".join(item[1:])).rstrip()
         if annotation is None:
             # try to retrieve the annotation from the docstring parent
-            with suppress(AttributeError, KeyError):
+            # IndexError: more documented items than elements in the annotated tuple.
+            with suppress(AttributeError, KeyError, IndexError):
                 annotation = docstring.parent.returns  # type: ignore[union-attr]
                 if annotation.is_generator:
                     receives_item = annotation.slice.elements[1]
